@@ -1445,7 +1445,7 @@ func kitFor(rpc string) renewalKit {
 				return r
 			},
 			call: func(ctx context.Context, l *rhpmitm.Lab, ex rhp.ContractRevision, k int) (rhp.ContractRevision, rhp.TransactionSet, error) {
-				res, err := rhp.RPCRenewContract(ctx, l.T, l.RenterNode.CM, l.Signer, l.RenterNode.CM.TipState(), l.Prices, l.HostAddr, ex.Revision, renewParams(ex, k))
+				res, err := rhp.RPCRenewContract(ctx, l.T, l.RentPool, l.Signer, l.RenterNode.CM.TipState(), l.Prices, l.HostAddr, ex.Revision, renewParams(ex, k))
 				return res.Contract, res.RenewalSet, err
 			}}
 	case "refresh-full":
@@ -1455,7 +1455,7 @@ func kitFor(rpc string) renewalKit {
 				return r
 			},
 			call: func(ctx context.Context, l *rhpmitm.Lab, ex rhp.ContractRevision, k int) (rhp.ContractRevision, rhp.TransactionSet, error) {
-				res, err := rhp.RPCRefreshContractFullRollover(ctx, l.T, l.RenterNode.CM, l.Signer, l.RenterNode.CM.TipState(), l.Prices, l.HostAddr, ex.Revision, refreshParams(ex, k))
+				res, err := rhp.RPCRefreshContractFullRollover(ctx, l.T, l.RentPool, l.Signer, l.RenterNode.CM.TipState(), l.Prices, l.HostAddr, ex.Revision, refreshParams(ex, k))
 				return res.Contract, res.RenewalSet, err
 			}}
 	default:
@@ -1465,7 +1465,7 @@ func kitFor(rpc string) renewalKit {
 				return r
 			},
 			call: func(ctx context.Context, l *rhpmitm.Lab, ex rhp.ContractRevision, k int) (rhp.ContractRevision, rhp.TransactionSet, error) {
-				res, err := rhp.RPCRefreshContractPartialRollover(ctx, l.T, l.RenterNode.CM, l.Signer, l.RenterNode.CM.TipState(), l.Prices, l.HostAddr, ex.Revision, refreshParams(ex, k))
+				res, err := rhp.RPCRefreshContractPartialRollover(ctx, l.T, l.RentPool, l.Signer, l.RenterNode.CM.TipState(), l.Prices, l.HostAddr, ex.Revision, refreshParams(ex, k))
 				return res.Contract, res.RenewalSet, err
 			}}
 	}
